@@ -300,6 +300,14 @@ Fixpoint walk (o : sexp) (i : nat) (t : utree) (held : bool) (origs : list utree
         let t := if held && negb (keeps_handle name) then strip_marks t else t in
         let held := held && keeps_handle name in
         let lenient := String.eqb name "prune" && negb (no_single t) in
+        (* Model/Prune.v addresses the tips of the list taken before the first removal BY NAME.  On
+           a tree without single-child inner nodes no other node can become a one-neighbour node
+           during the loop; with single-child nodes the new root can (Case 1b leaves a single-child
+           node as root), and if it bears the name of a tip still to be visited -- typically the
+           empty name of an old root that a re-rooting turned into a tip -- the name designates the
+           wrong node.  Such a step is outside the property (lenient) and outside the model. *)
+        let ambiguous_prune :=
+            lenient && existsb (fun x => negb (is_tip x) && existsb (String.eqb (uname x)) (tip_names t)) (nodes t) in
         let stopped (tag : string) : verdict :=
             match steps' with
             | [] => finish o origs i nin nstates tag
@@ -316,6 +324,14 @@ Fixpoint walk (o : sexp) (i : nat) (t : utree) (held : bool) (origs : list utree
             let gstage := match get_string "stage" so with Some s => s | None => "" end in
             let refused := negb (String.eqb gerr "") in
             if negb re && needs_index name then VBad (pre ++ "this operation is only modelled right after ReinitIndexes")
+            else if ambiguous_prune && negb (refused && String.eqb gstage "reinit") then
+              (* outside the property AND outside the name addressing of Model/Prune.v: nothing is
+                 predicted; the history goes on from the dumped tree *)
+              if refused then stopped ("stop@prune:outside:unmodelled")
+              else match get_tree "tree" so with
+                   | Some g => walk o (S i) g false origs nin (nstates + 1) ops' steps'
+                   | None => VBad (pre ++ "undecodable state")
+                   end
             else if unmodelled name t && negb (refused && String.eqb gstage "reinit") then
               if refused then stopped ("stop@" ++ name ++ ":unmodelled")
               else match check_state_unmodelled (pre ++ "(outside the model of this operation) ") so with
